@@ -31,7 +31,7 @@ CHECKS["C10"] = dict(
          "the attribute types and tests length, syntax, existence, node kind, writability and type, each with its documented errno, before the "
          "setter runs; (R4) fixed-size setters read at most sizeof(type); (R5) a setter that rejects has not modified the socket; (R6) every "
          "array access of the name parser is in bounds (record invariant num_comps <= 64 checked at every store). Not decided: attribute "
-         "values, behaviour of getters in every connection state (nullness of OpenSSL objects). (R1 also) internal buffers on the transports' getter paths are armed (defect F20 repaired); (R10) the log formatter that records a rejected attribute name is bounded for any name length, sizes computed as unsigned differences proved not to wrap.",
+         "values, behaviour of getters in every connection state (nullness of OpenSSL objects). (R1 also) internal buffers on the transports' getter paths are armed (defect F20 repaired); (R10) the log formatter that records a rejected attribute name is bounded for any name length, sizes computed as unsigned differences proved not to wrap. (R4) xcm_set_blocking leaves the stored mode unchanged on every failing exit. (R12) every write of the attribute setters into their own buffers is bounded.",
     note=TRUSTED + " Pointer parameters of different names are assumed not to alias; the sizes written by libc sinks are taken from their man pages.",
     technique="bounded-write dataflow (difference constraints) + guard-ordering/dominance checks + path exploration",
     design="3/C10")
@@ -42,7 +42,7 @@ CHECKS["C12"] = dict(
          "(R3) every write is within its buffer and the only thing a public entry demands from its caller is the documented (buffer, capacity) "
          "contract (bounded-write analysis; the DNS-name length lemma is derived from xcm_dns_is_valid_name's body); (R4) each of the eight "
          "transport names is validated by the parser for that name; (R5) UX/UXF makers reject over-long names first. Not decided: that make and "
-         "parse are inverses for all inputs (a relation between two computations), inet_pton/inet_ntop. (R3 also) index stores through the (buffer, capacity) parameters; (R7) the white-space predicate in front of every parser covers all six C white-space characters.",
+         "parse are inverses for all inputs (a relation between two computations), inet_pton/inet_ntop. (R3 also) index stores through the (buffer, capacity) parameters; (R7) the white-space predicate in front of every parser covers all six C white-space characters. (R8) the UX/UXF parser enforces the maker's name limit itself (not only the caller's capacity) and the DNS name predicate's limit equals the one the public header documents and sizes struct xcm_addr_host.name for.",
     note=TRUSTED + " A parse cursor s+k is assumed to stay inside its string when string lengths are compared (strlen(s+k) <= strlen(s)).",
     technique="bounded-write/value-range dataflow + idiom checks decided from path facts + table agreement",
     design="3/C12")
@@ -100,7 +100,7 @@ CHECKS["C01"] = dict(
          "buffer on every path, reads ask for exactly the missing part and a short read is never success; nothing larger than capacity is "
          "returned; the header codec of writer and readers agrees; the blocking message loop hands a message over exactly once and the "
          "byte-stream loop adds only non-negative results; UTLS uses its single active leg; UX is SEQPACKET with MSG_EOR/MSG_TRUNC. "
-         "Not decided: equality of the two endpoints' message sequences under all schedules (a relation between run-time histories). Also (R11) send/receive/finish of the framework are followed by the socket's update on every path, so a partly written frame is flushed when xcm_fd() fires; (R12) a byte-stream send failure other than EAGAIN leaves the connection terminal, so a message whose send was reported as failed is never delivered later.",
+         "Not decided: equality of the two endpoints' message sequences under all schedules (a relation between run-time histories). Also (R11) send/receive/finish of the framework are followed by the socket's update on every path, so a partly written frame is flushed when xcm_fd() fires; (R12) a byte-stream send failure other than EAGAIN leaves the connection terminal, so a message whose send was reported as failed is never delivered later. (R13) a receive is not held back by the socket's own refused output (the flush in front of a read gives way on EAGAIN).",
     note=TRUSTED + " Kernel SEQPACKET semantics and OpenSSL below btls are trusted.",
     technique="path-sensitive typestate exploration with inlining + reaching-definition and value-range dataflow + structural agreement",
     design="3/C01")
@@ -112,7 +112,7 @@ CHECKS["C06"] = dict(
          "discovers the condition; every store of a sticky errno is a constant or an errno captured right after the call observed failing "
          "(errno-source tracking, logging derived transparent); a connect attempt is retried only after its failure reason was recorded; "
          "the closed state is stored only under the documented conditions; end-of-stream concluded from a failed write is reported "
-         "(known finding K5, four sites). A read's 0 counts as end-of-stream only if bytes were asked for (zero-capacity receive answered before recv/SSL_read; defect F18 repaired). Not decided: which call observes a failure first under real timing; the errno the kernel produces.",
+         "(known finding K5, four sites). A read's 0 counts as end-of-stream only if bytes were asked for (zero-capacity receive answered before recv/SSL_read; defect F18 repaired). Not decided: which call observes a failure first under real timing; the errno the kernel produces. (R8) the framing transports' finish goes through the sub-socket's finish before the connection state is reported.",
     note=TRUSTED,
     technique="state-set abstract interpretation with inlining + errno-source tracking + condition classification",
     design="3/C06")
@@ -128,7 +128,7 @@ CHECKS["C13"] = dict(
          "tracker, `sequential`/`happy_eyeballs` all, unknown algorithms are refused, list/count/timeout arguments reach every track unchanged, "
          "happy eyeballs makes one track per family; (R5) resolution failure/overall-timer expiry => ENOENT, attempt-timer expiry => ETIMEDOUT + "
          "abort + next address, EAGAIN only while a track is in progress; (R6) timers are armed with the configured timeouts; (R7) with a local "
-         "address every attempt binds before connect() and a failed bind never reaches connect(), and the configured address is handed unchanged, call site by call site, to every attempt track; (R8) the resolver's result count is bounded by the caller's capacity. (R9) no floating-point value is implicitly converted into a stored integer field of the repository's records (dns.timeout, tcp.connect_timeout stay doubles); (R10) on every path through the abort helper the attempt in progress is dissolved (connect to AF_UNSPEC) before the next address is tried, with out-parameter constants (timer_mgr_ack leaves the id at -1) tracked across the call.",
+         "address every attempt binds before connect() and a failed bind never reaches connect(), and the configured address is handed unchanged, call site by call site, to every attempt track; (R8) the resolver's result count is bounded by the caller's capacity. (R9) no floating-point value is implicitly converted into a stored integer field of the repository's records (dns.timeout, tcp.connect_timeout stay doubles); (R10) on every path through the abort helper the attempt in progress is dissolved (connect to AF_UNSPEC) before the next address is tried, with out-parameter constants (timer_mgr_ack leaves the id at -1) tracked across the call. (R10 also) the helper is recognised by the dissolving connect() or, when that is gone, as the attempt function's own clean-up helper; (R11) every function that changes the timer manager's list of pending timers re-evaluates the timer descriptor on every path before it returns (creation of an empty list and teardown after the descriptor was closed excepted).",
     note=TRUSTED + " Library functions outside escape.RETAINING_EXT are assumed not to keep pointer arguments.",
     technique="escape analysis + feasible-path search in loop SCCs + errno-source tracking + argument-flow/control-dependence checks",
     design="3/C13")
@@ -200,7 +200,7 @@ CHECKS["C08"] = dict(
          "unchecked to a function that asserts it valid (known findings K2: two sites); (R8) the UXF path is recorded only after a successful bind and unlinked "
          "by the owner's close; (R9) every object a function obtains from a creator in a 48-entry creator/releaser table is released, stored, returned or handed "
          "over on every path; (R10) no data-path op is reachable on a socket between init and connect/server/accept (known finding K6). (R11) teardown loops over a counted collection run until it is empty (no index advancing against a count the body decrements). Not decided: equality of "
-         "the heap and descriptor table before/after (R3/R9 are coverage and per-function ownership, not a leak proof); behaviour of a forked child at run time. (R12) the always-readable descriptor is shared by at most 100 epoll instances (kernel path limit for nested epoll; beyond it EPOLL_CTL_ADD fails and K2's assertion aborts).",
+         "the heap and descriptor table before/after (R3/R9 are coverage and per-function ownership, not a leak proof); behaviour of a forked child at run time. (R12) the always-readable descriptor is shared by at most 100 epoll instances (kernel path limit for nested epoll; beyond it EPOLL_CTL_ADD fails and K2's assertion aborts). (R8 also) the UXF path is on record on every failure exit after bind; (R13) EPOLL_CTL_DEL tolerates exactly EBADF/ENOENT/EPERM.",
     note=TRUSTED + " The kernel drops a descriptor's epoll registrations when it is closed; registration tables (xpoll) keep descriptor numbers without owning them.",
     technique="typestate abstract interpretation with inlining and parameter binding + ownership dataflow + context-sensitive call-graph reachability",
     design="3/C08")
@@ -219,7 +219,7 @@ CHECKS["C09"] = dict(
          "enable_hostname_validation is consistent with one of the six documented invalid combinations, refusals say EINVAL, and finalize precedes the "
          "context lookup in connect, server and accept; (R7) load_ssl_ctx installs trusted CAs/CRLs iff given and allows partial chains only without CRLs; "
          "hostname flags NO_WILDCARDS|ALWAYS_CHECK_SUBJECT. (R5) every policy field is inherited unconditionally (a copy may depend on tests of the same field only); (R8) names are appended to the socket's peer-name list only where the list was absent: explicit tls.peer_names are the whole set. Not decided: the outcome matrix against generated certificates (that is the behaviour), "
-         "OpenSSL's chain building, extended key usage checks (inside OpenSSL). (R9) every context lookup passes the four credential items of the socket whose ssl_ctx receives the result; (R10) each default credential file has its own default and per-namespace template.",
+         "OpenSSL's chain building, extended key usage checks (inside OpenSSL). (R9) every context lookup passes the four credential items of the socket whose ssl_ctx receives the result; (R10) each default credential file has its own default and per-namespace template. (R8 also) a configured set of peer names is never empty.",
     note=TRUSTED + " Numeric values of the OpenSSL flag macros are taken from its stable ABI.",
     technique="path exploration + exact folding of the policy function over all inputs + control dependence / must-pass + field coverage + path-fact analysis",
     design="3/C09")
@@ -264,7 +264,7 @@ CHECKS["C04"] = dict(
          "the handshaking state hands ssl_wants to the sub-socket; every OpenSSL I/O site passes its result to process_ssl_event; (R7) connect() is issued only "
          "with the descriptor registered for EPOLLOUT, EINPROGRESS and a delayed track arm a timer; (R8) the resolver's entry points end in update_xpoll and a "
          "finished query arms a zero timer; (R9) the blocking forms poll the socket's own descriptor for POLLIN after await(). (R10) the btls connection update helper is folded exactly over its 48 ready-state inputs (awaited condition x direction of the last incomplete OpenSSL call x what it wanted x SSL_has_pending): every row rings the bell or stores and updates the sub-socket's condition, decrypted bytes ring when RECEIVABLE is awaited, an awaited direction OpenSSL was not asked about is watched on the sub-socket; (R11) send/receive/finish of btcp and btls call the state-advancing helper before the first test of the connection state. Not decided: boundedness in "
-         "time; what OpenSSL does with a wake-up (trusted). (R3 also) the value handed to the sub-socket is built from the socket's own condition and only or-ed afterwards; (R12) clock_gettime in the timer's time source uses the clock the timerfd was created on.",
+         "time; what OpenSSL does with a wake-up (trusted). (R3 also) the value handed to the sub-socket is built from the socket's own condition and only or-ed afterwards; (R12) clock_gettime in the timer's time source uses the clock the timerfd was created on. (R13) the descriptors and timers of a connection attempt are registered in the epoll set of the socket that started it.",
     note=TRUSTED,
     technique="must-follow / must-pass path rules with inlining + switch-case typestate + control dependence + constant-flag checks",
     design="3/C04")
@@ -275,7 +275,7 @@ CHECKS["C16"] = dict(
          "by that re-evaluation; (R3) the condition-to-event mappings of the leaf transports are decided exactly - ux's conn_event/server_event folded over all "
          "8 condition values, btcp's flags or-ed only under the matching condition bit - and btls in state ready with nothing awaited neither rings its bell nor "
          "asks the sub-socket for anything, and the same helper folded exactly over its 48 ready-state inputs never hands down more interest than is awaited or OpenSSL wants; (R4) every expired edge of timer_mgr_has_expired is followed on all paths by ack/cancel/reschedule of that timer; "
-         "(R5) a successful resolver result and a handed-over connected descriptor are deregistered from the epoll set. (R6) the epoll wrapper skips epoll_ctl only when the stored mask equals the requested one; (R7) the control listener is parked exactly while the session table is full; (R8) descriptors are deregistered before they are closed (one named exception with its reason); (R9) send/receive/finish are followed by the socket's update.",
+         "(R5) a successful resolver result and a handed-over connected descriptor are deregistered from the epoll set. (R6) the epoll wrapper skips epoll_ctl only when the stored mask equals the requested one; (R7) the control listener is parked exactly while the session table is full; (R8) descriptors are deregistered before they are closed (one named exception with its reason); (R9) send/receive/finish are followed by the socket's update. (R10) a control client kept after a step (non-negative return) is registered for EPOLLOUT exactly when its response-pending flag was set true on that path.",
     note=TRUSTED,
     technique="who-may-write queries + control dependence / must-follow + exact folding of mapping functions + path exploration",
     design="3/C16")
@@ -289,7 +289,7 @@ CHECKS["C20"] = dict(
          "condition words are only or-ed / and-not-ed with single flags, each direction uses RECEIVABLE on its source and SENDABLE on its destination, and the "
          "two directions are wired crosswise; (R3) a direction's termination stops and destroys its own relay only and no exit()/loop break is reachable from "
          "the forwarding callback; (R4) a relay is created only on the equal edge of the service comparison and every other exit of the accept path closes what "
-         "it opened; (R5) a leg is closed only after its pending output was finished - known finding K7 (two close sites), replayed with a short-write shim.",
+         "it opened; (R5) a leg is closed only after its pending output was finished - known finding K7 (two close sites), replayed with a short-write shim. (R8) every handler registered on an xcm_fd() enters the XCM library (send, receive, finish, accept, close) on every path, helpers inlined.",
     note=TRUSTED + " The XCM library's own guarantees (C01-C06) are assumed for the relay's calls into it.",
     technique="path exploration (hold-one-message typestate, ownership) + operator/constant checks + call-graph reachability",
     design="3/C20")
